@@ -355,6 +355,10 @@ pub fn mutating_sets() -> Vec<(&'static str, Value)> {
                                     {"sel":"div","element":obs,"text":obs}],
                            "doc":[{"end":obs}]})),
         ("m-endtag", json!({"elem":[{"sel":"*","element":[{"op":"on_end_tag","a":[[{"op":"remove"}]]}]}],"doc":[{"end":[{"op":"append","a":["<!--e-->"]}]}]})),
+        // two document-end handlers that both append (they run in reverse registration order; a failure of the first to
+        // run must keep the other from running)
+        ("m-two-ends", json!({"doc":[{"end":[{"op":"append","a":["<!--A-->"]}]},{"end":[{"op":"append","a":["<!--B-->"]}],"comments":obs}],
+                              "elem":[{"sel":"p","element":[{"op":"set_inner","a":[""]},{"op":"before","a":["",true]}],"text":[{"op":"after","a":["",true]}]}]})),
         // attribute values that need escaping at their very start / twice in a row / at the end; empty values and names
         ("m-attr-quotes", json!({"elem":[{"sel":"a","element":[{"op":"set_attr","a":["title","\"quoted\" t"]},{"op":"set_attr","a":["x","a\"\"b"]},{"op":"set_attr","a":["y","\""]},{"op":"set_attr","a":["z",""]}]},
                                          {"sel":"p","element":[{"op":"set_attr","a":["q","\"\""]},{"op":"rm_attr","a":["id"]}]},
